@@ -248,9 +248,14 @@ reg('C16',
     'unique numbers, configuration of untouched stereocentres, identity template returns the input. Multi-reactant Reactor: 4 reactions x reactant '
     'pairs with colliding atom numbers x spectators x all reactant orders x renumbering x one_shot on/off: unique atom numbers over all products, '
     'spectators unchanged, valence-valid products, product set independent of order and numbering. Built-in deprotection groups and apply_all on '
-    'protected molecules: unique numbers, valence validity, numbering independence.',
+    'protected molecules: unique numbers, valence validity, numbering independence. Multi-reactant Reactor vs the edit model: the 4 synthetic reactions and all 53 '
+    'reactors of the prepared collections (chython.reactor.reactions: 9, chython.reactor.retro: 5) x every tuple of pool molecules (54 / 27 building blocks) that '
+    'matches the patterns - the set of reported reactions must equal the edit model applied to every combination of matches of every assignment of molecules to '
+    'patterns, surviving atoms keep numbers and attributes, untouched stereocentres keep their configuration; colliding numbers, reversed order and a spectator '
+    'give the same set; a collection call equals the union of its reactors.',
     'Trusted: the edit model in vf/props/c16.py; matches come from the library matcher (C07/C08). Hydrogen counts of products are not modelled. The '
-    'prepared reaction collections (reactions/, retro/) are exercised only through the Reactor class they are built on.',
+    'products of aromatic reactants are compared after the documented kekule/thiele normalisation. Multi-stage (one_shot=False) mode of the prepared collections is '
+    'covered by the relational stage only.',
     'bounded exhaustive enumeration of templates x molecules x matches on the real implementation vs an independent edit model',
     'DESIGN.md s5 C16')
 
